@@ -132,13 +132,20 @@ func HC06Interceptor() {
 		_, _, _ = r[1].Read(buf, nil)
 	}
 	ntpv := vr.NondetU64()
-	srBytes, merr := (&rtcp.SenderReport{SSRC: 2, NTPTime: ntpv}).Marshal()
+	// the sender report for stream 2 alone, or behind a sender report of a stream that is not bound
+	// and a receiver report in the same compound packet
+	compound := []rtcp.Packet{&rtcp.SenderReport{SSRC: 2, NTPTime: ntpv}}
+	if vr.Concretize(vr.NondetInt(0, 1)) == 1 {
+		compound = []rtcp.Packet{&rtcp.SenderReport{SSRC: 9, NTPTime: 77 << 32}, &rtcp.ReceiverReport{SSRC: 9}, compound[0]}
+		vr.Cover("sender report behind one for an unbound stream")
+	}
+	srBytes, merr := rtcp.Marshal(compound)
 	vr.Assert(merr == nil, "sr marshals")
 	rtcpR := it.BindRTCPReader(interceptor.RTCPReaderFunc(func(b []byte, at interceptor.Attributes) (int, interceptor.Attributes, error) {
 		copy(b, srBytes)
 		return len(srBytes), at, nil
 	}))
-	big := make([]byte, 128)
+	big := make([]byte, 256)
 	_, _, rerr := rtcpR.Read(big, nil)
 	vr.Assert(rerr == nil, "rtcp read passes through")
 	vr.FireTickers(now)
